@@ -24,7 +24,16 @@
 //        changed = B's state fingerprint (chunk store, provider table, shard table, manifest cache, swarm plans/ledgers) differs;
 //        fetch = B.fetch_chunk(id) after an accept.  A throw out of receive_chunk is a `reject`.
 //   cli <corr>                                         -> ok <bytes> | null           decrypt_chunk_with_manifest (src/main.cpp); a throw is `null`
-//   ingest <a|b> <corr>                                -> ok | refused                Node::ingest_manifest(corr(manifest)); not judged (observation)
+//   ingest <a|b> <corr>                                -> ok | refused                Node::ingest_manifest(encode(corr(manifest))): a manifest without replica
+//   announce <a|x> <corr> <assign 0|1>                 -> ok acc=<0|1> cached=<0|1> pend=<0|1> req=<0|1>
+//        B.handle_announce of corr(manifest) from peer A or from a third peer X (planted sessions), one second later (announce
+//        throttle); acc = B's reputation of the sender went up (the accepting exit), cached = B's manifest cache now holds exactly
+//        that manifest, pend = B has a pending fetch for the id, req = B wrote a REQUEST for it to the sender's session
+//   serve                                              -> chunk data=<bytes> ttl=<s> | nack | none
+//        A.handle_request({id of the last store, B}, B); what A wrote to B's session (decrypted, signature checked); the upload
+//        slot is released again by an ACK from B (harness housekeeping)
+//   deliver <a|x> <corr>                               -> ack=<0|1|none> stored=<0|1> ann=<0|1> changed=<0|1|acc> pend=<0|1> fetch=<bytes|miss|throw|->
+//        B.handle_chunk({corr.id, corr(held bytes)}, sender): the manifest is the one B has cached; ack = the ACK B wrote back
 // <payload>: hex | - | gen:<len>:<seed>.  <bytes>: `-` (empty), hex (<= 64 bytes), else len:<n>:fnv:<fnv1a64>.
 // <corr>: none | item+item+...; items: ct:<k>:<x> ctadd:<hex> ctcut:<k> hash:<k>:<x> nonce:<k>:<x> id:<k>:<x>
 //         shard:<i>:<k>:<x> sidx:<i>:<v> thr:<v> total:<v> exp:<delta_s> drop:<i> rot:<k> rev
@@ -34,9 +43,15 @@
 #include "ephemeralnet/protocol/Manifest.hpp"
 #include "pipeline_cli_h.hpp"
 
+#include "ephemeralnet/crypto/ChaCha20.hpp"
+#include "ephemeralnet/network/SessionManager.hpp"
+#include "ephemeralnet/protocol/Message.hpp"
+
 #include <algorithm>
 #include <memory>
 #include <random>
+#include <sys/socket.h>
+#include <unistd.h>
 
 namespace verif_rng {
 std::uint64_t state = 0x9E3779B97F4A7C15ull;
@@ -64,6 +79,69 @@ std::unique_ptr<Node> A, B;
 bool have_manifest = false;
 protocol::Manifest last_manifest{};
 std::vector<std::uint8_t> last_held;
+
+// planted transport sessions: fd_* are the harness ends of socketpairs whose other ends are session sockets
+int fd_a_to_b = -1;   // what A writes to its session with B
+int fd_b_to_a = -1;   // what B writes to its session with A
+int fd_b_to_x = -1;   // what B writes to its session with the third peer X
+PeerId id_a{}, id_b{}, id_x{};
+
+void close_fds() {
+    for (int* f : {&fd_a_to_b, &fd_b_to_a, &fd_b_to_x}) {
+        if (*f >= 0) ::close(*f);
+        *f = -1;
+    }
+}
+
+int plant(Node& n, const PeerId& peer, std::uint8_t secret_byte) {
+    int sv[2];
+    if (::socketpair(AF_UNIX, SOCK_STREAM, 0, sv) != 0) throw std::runtime_error("socketpair");
+    crypto::Key secret{};
+    secret.bytes.fill(secret_byte);
+    n.register_shared_secret(peer, secret);
+    auto session = std::make_shared<network::SessionManager::Session>();
+    session->socket = static_cast<network::SessionManager::SocketHandle>(sv[0]);
+    if (const auto k = n.session_key(peer)) session->key = *k;
+    session->endpoint = "verif";
+    session->running.store(true);
+    session->alive.store(true);
+    {
+        std::scoped_lock lock(n.sessions_.sessions_mutex_);
+        n.sessions_.sessions_[network::SessionManager::peer_key_string(peer)] = session;
+    }
+    return sv[1];
+}
+
+// every message `n` wrote to its session with `peer` since the last call (frame: nonce(12) len(4, BE) ciphertext)
+std::vector<protocol::Message> drain(int fd, Node& n, const PeerId& peer) {
+    std::vector<protocol::Message> out;
+    std::vector<std::uint8_t> buf;
+    std::uint8_t tmp[65536];
+    for (;;) {
+        const auto got = ::recv(fd, tmp, sizeof tmp, MSG_DONTWAIT);
+        if (got <= 0) break;
+        buf.insert(buf.end(), tmp, tmp + got);
+    }
+    const auto key = n.session_key(peer);
+    if (!key) return out;
+    std::size_t off = 0;
+    while (buf.size() - off >= 16) {
+        const std::size_t len = (std::size_t(buf[off + 12]) << 24) | (std::size_t(buf[off + 13]) << 16) |
+                                (std::size_t(buf[off + 14]) << 8) | std::size_t(buf[off + 15]);
+        if (buf.size() - off - 16 < len) break;
+        crypto::Nonce nonce{};
+        std::copy(buf.begin() + off, buf.begin() + off + 12, nonce.bytes.begin());
+        crypto::Key k{};
+        k.bytes = *key;
+        std::vector<std::uint8_t> pt(len);
+        crypto::ChaCha20::apply(k, nonce, std::span<const std::uint8_t>(buf.data() + off + 16, len), pt, 0u);
+        if (const auto msg = protocol::decode_signed(std::span<const std::uint8_t>(pt), std::span<const std::uint8_t>(key->data(), key->size()))) {
+            out.push_back(*msg);
+        }
+        off += 16 + len;
+    }
+    return out;
+}
 
 std::string canon(const std::uint8_t* p, std::size_t n) {
     if (n == 0) return "-";
@@ -109,7 +187,9 @@ Config make_config(const std::vector<std::string>& t) {
     cfg.relay_enabled = false;
     cfg.nat_stun_enabled = false;
     cfg.storage_persistent_enabled = false;
-    cfg.key_rotation_interval = std::chrono::seconds(3600);
+    cfg.key_rotation_interval = std::chrono::seconds(360000);
+    cfg.announce_min_interval = std::chrono::seconds(1);
+    cfg.announce_burst_limit = 1000000;
     cfg.shard_threshold = static_cast<std::uint8_t>(std::stoul(t.at(1)));
     cfg.shard_total = static_cast<std::uint8_t>(std::stoul(t.at(2)));
     cfg.min_manifest_ttl = std::chrono::seconds(std::stoll(t.at(3)));
@@ -121,12 +201,16 @@ Config make_config(const std::vector<std::string>& t) {
 void fresh_nodes(const Config& cfg) {
     A.reset();
     B.reset();
-    PeerId a{}, b{};
-    a.fill(0); b.fill(0);
-    a[0] = 0xA1; a[31] = 0x01;
-    b[0] = 0xB2; b[31] = 0x02;
-    A = std::make_unique<Node>(a, cfg);
-    B = std::make_unique<Node>(b, cfg);
+    close_fds();
+    id_a.fill(0); id_b.fill(0); id_x.fill(0);
+    id_a[0] = 0xA1; id_a[31] = 0x01;
+    id_b[0] = 0xB2; id_b[31] = 0x02;
+    id_x[0] = 0xC3; id_x[31] = 0x03;
+    A = std::make_unique<Node>(id_a, cfg);
+    B = std::make_unique<Node>(id_b, cfg);
+    fd_a_to_b = plant(*A, id_b, 0x42);
+    fd_b_to_a = plant(*B, id_a, 0x42);
+    fd_b_to_x = plant(*B, id_x, 0x43);
     have_manifest = false;
     last_held.clear();
 }
@@ -254,12 +338,112 @@ std::string handle(const std::vector<std::string>& t) {
         return r ? "hit " + canon(*r) : std::string("miss");
     }
     if (t[0] == "ingest") {
-        // observation outside the property: Node::ingest_manifest takes a manifest without any replica (nothing to verify)
         if (!have_manifest) return "no-manifest";
         protocol::Manifest m = last_manifest;
         std::vector<std::uint8_t> ct;
         corrupt(t.at(2), m, ct);
         return who(t.at(1)).ingest_manifest(protocol::encode_manifest(m)) ? "ok" : "refused";
+    }
+    if (t[0] == "announce") {
+        if (!have_manifest) return "no-manifest";
+        const bool from_x = t.at(1) == "x";
+        const PeerId& sender = from_x ? id_x : id_a;
+        const int fd = from_x ? fd_b_to_x : fd_b_to_a;
+        protocol::Manifest m = last_manifest;
+        std::vector<std::uint8_t> ct;
+        corrupt(t.at(2), m, ct);
+        verif::vclock_advance(1'000'000'000LL);
+        protocol::AnnouncePayload payload{};
+        payload.chunk_id = m.chunk_id;
+        payload.peer_id = sender;
+        payload.endpoint = "";
+        payload.ttl = std::chrono::seconds(0);
+        payload.manifest_uri = protocol::encode_manifest(m);
+        if (t.at(3) == "1" && !m.shards.empty()) payload.assigned_shards.push_back(m.shards.front().index);
+        drain(fd, *B, sender);
+        const int before = B->reputation_.score(sender);
+        B->handle_announce(payload, sender, protocol::kCurrentMessageVersion);
+        const bool acc = B->reputation_.score(sender) > before;
+        bool cached = false;
+        {
+            const auto it = B->manifest_cache_.find(chunk_id_to_string(m.chunk_id));
+            if (it != B->manifest_cache_.end()) {
+                try { cached = protocol::encode_manifest(it->second) == payload.manifest_uri; } catch (const std::exception&) {}
+            }
+        }
+        const bool pend = B->pending_chunk_fetches_.count(chunk_id_to_string(m.chunk_id)) != 0;
+        bool req = false;
+        for (const auto& msg : drain(fd, *B, sender)) {
+            if (const auto* r = std::get_if<protocol::RequestPayload>(&msg.payload)) req = req || r->chunk_id == m.chunk_id;
+        }
+        return std::string("ok acc=") + (acc ? "1" : "0") + " cached=" + (cached ? "1" : "0") + " pend=" + (pend ? "1" : "0") +
+               " req=" + (req ? "1" : "0");
+    }
+    if (t[0] == "serve") {
+        if (!have_manifest) return "no-manifest";
+        protocol::RequestPayload payload{};
+        payload.chunk_id = last_manifest.chunk_id;
+        payload.requester = id_b;
+        drain(fd_a_to_b, *A, id_b);
+        A->handle_request(payload, id_b);
+        std::string out = "none";
+        bool served = false;
+        for (const auto& msg : drain(fd_a_to_b, *A, id_b)) {
+            if (const auto* c = std::get_if<protocol::ChunkPayload>(&msg.payload)) {
+                if (c->chunk_id == payload.chunk_id) { out = "chunk data=" + canon(c->data) + " ttl=" + std::to_string(c->ttl.count()); served = true; }
+            } else if (const auto* a = std::get_if<protocol::AcknowledgePayload>(&msg.payload)) {
+                if (a->chunk_id == payload.chunk_id && !a->accepted && !served) out = "nack";
+            }
+        }
+        if (served) {   // B's ACK releases the upload slot
+            protocol::AcknowledgePayload ack{};
+            ack.chunk_id = payload.chunk_id;
+            ack.peer_id = id_b;
+            ack.accepted = true;
+            A->handle_acknowledge(ack, id_b);
+            drain(fd_a_to_b, *A, id_b);
+        }
+        return out;
+    }
+    if (t[0] == "deliver") {
+        if (!have_manifest) return "no-manifest";
+        const bool from_x = t.at(1) == "x";
+        const PeerId& sender = from_x ? id_x : id_a;
+        const int fd = from_x ? fd_b_to_x : fd_b_to_a;
+        protocol::Manifest m = last_manifest;
+        std::vector<std::uint8_t> ct = last_held;
+        corrupt(t.at(2), m, ct);
+        protocol::ChunkPayload payload{};
+        payload.chunk_id = m.chunk_id;
+        payload.data = ct;
+        payload.ttl = std::chrono::seconds(0);
+        drain(fd, *B, sender);
+        const std::string before = fingerprint(*B);
+        B->handle_chunk(payload, sender);
+        const std::string after = fingerprint(*B);
+        std::string ack = "none";
+        for (const auto& msg : drain(fd, *B, sender)) {
+            if (const auto* a = std::get_if<protocol::AcknowledgePayload>(&msg.payload)) {
+                if (a->chunk_id == m.chunk_id) ack = a->accepted ? "1" : "0";
+            }
+        }
+        std::string out = "ack=" + ack;
+        out += std::string(" stored=") + (holds(*B, m.chunk_id) ? "1" : "0");
+        out += std::string(" ann=") + (announced(*B, m.chunk_id) ? "1" : "0");
+        // after an accept the sender is also noted as a seed (swarm ledger): only a reject is expected to change nothing
+        out += std::string(" changed=") + (ack == "1" ? "acc" : (before != after ? "1" : "0"));
+        out += std::string(" pend=") + (B->pending_chunk_fetches_.count(chunk_id_to_string(m.chunk_id)) ? "1" : "0");
+        if (ack == "1") {
+            try {
+                const auto f = B->fetch_chunk(m.chunk_id);
+                out += " fetch=" + (f ? canon(*f) : std::string("miss"));
+            } catch (const std::exception&) {
+                out += " fetch=throw";
+            }
+        } else {
+            out += " fetch=-";
+        }
+        return out;
     }
     if (t[0] == "receive" || t[0] == "cli") {
         if (!have_manifest) return "no-manifest";
@@ -315,6 +499,7 @@ int main(int argc, char** argv) {
     h.reset = [] {
         A.reset();
         B.reset();
+        close_fds();
         have_manifest = false;
         last_held.clear();
     };
